@@ -1,3 +1,4 @@
+import aritylib
 """C18 - Clone instances produce equal copies that share no mutable storage.
 
 (A) TLC (Typeclass.tla): SemEq is the equality the clone must preserve (nil and empty containers are the same value).
@@ -19,6 +20,8 @@ def run(c):
         return tcrun.replay(c, "C18")
     rng = random.Random(c.seed)
     c.tlc_expect_clean("Typeclass", "MCTypeclass")
+    # the TupleN instances of this typeclass at every arity 2..21 (position-tagged arguments, judged by Arity.tla)
+    aritylib.family_subrun(c, "C18", ["clone.Tuple"])
     cases = []
     for rep in range(4 if c.thorough else 2):
         cases += tclib.cases("clone", rng, per_type=10 if c.thorough else 8)
